@@ -58,7 +58,7 @@ func VC15_Purge() {
 	}
 	expireX := now + life*c15Second
 	for i := 0; i < K; i++ {
-		gap := rt.Int("gap_s", 0, 3000000000)
+		gap := rt.Int("gap_s", 0, 1000000000) // up to ~32 years per step: the sum stays inside int64 nanoseconds for K <= 8
 		faketime.Advance(faketime.Duration(gap * c15Second))
 		now += gap * c15Second
 		d.AddBackend("other"+itoa(i), b, rt.Int("expires", 0, 2147483647))
